@@ -396,7 +396,10 @@ func runC07(p *core.Prog, r *core.Report, tier string) {
 				return
 			}
 			vd := ds.D(snd.X)
-			// sends that carry (part of) the provider's response
+			// sends that carry (part of) the provider's response — not the failure reports, which carry its error
+			if strings.Contains(strings.ToLower(snd.Chan.Type().String()), "error") {
+				return
+			}
 			if !valueCarries(ds, f, snd.X, provider) {
 				return
 			}
@@ -442,24 +445,12 @@ func runC07(p *core.Prog, r *core.Report, tier string) {
 			}
 			est := core.GuardEdges(ds, f, zeroTrue)
 			for b, s := range est {
-				start := b.Succs[s]
-				bad := false
-				seen := map[*ssa.BasicBlock]bool{}
-				stack := []*ssa.BasicBlock{start}
-				for len(stack) > 0 {
-					x := stack[len(stack)-1]
-					stack = stack[:len(stack)-1]
-					if seen[x] {
-						continue
-					}
-					seen[x] = true
-					for _, in := range x.Instrs {
-						if snd, ok := in.(*ssa.Send); ok && strings.Contains(snd.Chan.Type().String(), "Response") && !strings.Contains(strings.ToLower(snd.Chan.Type().String()), "error") {
-							bad = true
-						}
-					}
-					stack = append(stack, x.Succs...)
+				// with jump threading: the branch may record the refusal in an error variable that is tested after the merge
+				isRespSend := func(in ssa.Instruction) bool {
+					snd, ok := in.(*ssa.Send)
+					return ok && strings.Contains(snd.Chan.Type().String(), "Response") && !strings.Contains(strings.ToLower(snd.Chan.Type().String()), "error")
 				}
+				bad := core.PathQuery{Fn: f, StartEdge: &[2]*ssa.BasicBlock{b, b.Succs[s]}, Target: isRespSend}.Find() != nil
 				r.Check(!bad, "C07.d", core.FnKey(f)+"|zero-fee-recipient-refused", p.Pos(call.Pos()), "a proposal with a zero fee recipient is not forwarded as a response", "a proposal with a zero fee recipient can still be forwarded as a response")
 			}
 		}
